@@ -246,3 +246,10 @@ def run(ctx):
     r4(ctx)
     r5(ctx)
     r6(ctx)
+    import rules.C01 as c01
+    ctx.rule('C02.R8', 'no exit of handleReceive lies between the reception of a symbol and the CRC update other than the '
+             'transitions that restart reception and the own AUTO-SYN: the CRC that is sent covers every echoed symbol of the '
+             'escaped sequence', minimum=4)
+    ctx.rule('C02.R9', 'the echo comparison sees the symbols as sent and received: neither is reassigned before it and it '
+             'precedes the CRC update and the unescaping', minimum=2)
+    c01.raw_symbol_rules(ctx, 'C02.R8', 'C02.R9')
